@@ -60,7 +60,7 @@ def get_style(obj, default_settings, **kwargs):
     """
     obj_families = get_families(obj)
     # parse kwargs into style an non-style arguments
-    style_kwargs = kwargs.get("style", {})
+    style_kwargs = dict(kwargs.get("style", {}))  # copy: the caller's dictionary is not extended
     style_kwargs.update(
         {k[6:]: v for k, v in kwargs.items() if k.startswith("style") and k != "style"}
     )
